@@ -7,7 +7,7 @@ CFG = dict(
               "quat_rotate_mul", "quat_rotate_norm_general", "quat_rotate_norm", "quat_rotate_add", "quat_rotate_smul",
               "quat_identity_rotate", "quat_fromTheta_unit", "quat_rotationTo_generic", "trs_transform",
               "aabb_setMinMax_min", "aabb_setMinMax_max", "aabb_contains_iff", "aabb_encapsulatePoint_contains",
-              "aabb_encapsulatePoint_mono", "aabb_closestPoint_in_box", "aabb_closestPoint_id_inside"],
+              "aabb_encapsulatePoint_mono", "aabb_encapsulateBounds_contains", "aabb_encapsulateBounds_mono", "aabb_closestPoint_in_box", "aabb_closestPoint_id_inside"],
     streams=[dict(name="c17", n=dict(quick=300, thorough=20000),
                   ulps={"c17.quat.fromtheta": (8, 1e-15), "c17.quat.rotationto": (8, 1e-15)})],
     trusted=T_COMMON + ["sin/cos: Go math.Sin/Cos vs libm compared within 8 ulps (only FromTheta uses them)"],
